@@ -35,3 +35,11 @@ PROPS = {
                 "ParseXMLArtifactResponse / ParseResponse(SAMLart via a RoundTripper that answers the real ArtifactResolve)",
     },
 }
+
+PROPS["C09"] = {
+    "modules": ["SamlVerif.Props.C09"],
+    "trusted_base": SP_TB + ["termination and allocation of xrv, encoding/xml and etree on arbitrary bytes are not modelled (partial): "
+                             "the model covers the library's own logic after parsing plus the inflate bound"],
+    "assumptions": [],
+    "rule": "schema-valid responses with every subset of optional parts removed x 4 signing layouts, valid IdP signature re-applied",
+}
